@@ -374,7 +374,7 @@ impl Prop for C18 {
 		]
 	}
 	fn expected_probes(&self) -> Vec<&'static str> {
-		vec!["fault_header_byte", "fault_truncation", "fingerprint_endianness_cross_checked", "reader_refill_boundary_inside_header", "schema_pairs_checked", "sink_hard_or_zero_fired", "sink_interrupted_fired", "sink_accept_schedule_checked"]
+		vec!["long_history", "fault_header_byte", "fault_truncation", "fingerprint_endianness_cross_checked", "reader_refill_boundary_inside_header", "schema_pairs_checked", "sink_hard_or_zero_fired", "sink_interrupted_fired", "sink_accept_schedule_checked"]
 	}
 	fn budget(&self, tier: Tier) -> (u64, u64) {
 		match tier {
